@@ -17,7 +17,9 @@ tie    : (T) translate/t_cli.py regenerates coq/gen/Cli.v from src/cli/main.cpp 
            files  : token matrices (delimiters, blanks, empty tokens, garbage tokens, empty lines,
                     CRLF, missing final newline, unequal rows, both transposition flags) through
                     `-m passthru` against the extracted cli_main and an independent reading of
-                    "one sample per line";
+                    "one sample per line"; ragged files of every shape (deviations that cancel out,
+                    first / last / middle row, only shorter / only longer, permutations, rows without
+                    a number) and EVERY ragged length vector of <= 3 (thorough: 4) lines x 0..3 values;
            library: deterministic methods with option mixes, --precompute, transposition flags and
                     projection files against in-process library calls with the parameters the
                     specification names.
@@ -849,7 +851,7 @@ class Checker:
             ti = any(n == "transpose-input" for n, _ in args)
             to = any(n == "transpose-output" for n, _ in args)
             rows = py_read(c["content"], d)
-            if rows is not None and len(rows) >= 2:
+            if (rows is not None and len(rows) >= 2) or (rows is None and c.get("mode", "").startswith("ragged")):
                 self.nontrivial.add(case_id(c))
             # specification: one sample per line; pass-through returns the samples
             if rows is None:
@@ -1147,6 +1149,9 @@ def run_inner(ctx):
         times["wiring_done_s"] = round(ctx.elapsed(), 1)
         ck.files([gen_file_case(rng) for _ in range(800 if big else 160)])
         ck.files(gen_small_files(None if big else 60))
+        # malformed stream: rows of unequal length in every shape, then every small length vector
+        ck.files([gen_ragged_case(rng) for _ in range(600 if big else 150)])
+        ck.files(gen_ragged_exhaustive(rng, big))
         times["files_done_s"] = round(ctx.elapsed(), 1)
         ck.library([gen_lib_case(rng, tables) for _ in range(300 if big else 60)])
         times["library_done_s"] = round(ctx.elapsed(), 1)
@@ -1154,6 +1159,8 @@ def run_inner(ctx):
             # search phase: an obligation or the correspondence broke during the run
             ck.wiring([gen_random_args(rng, tables) for _ in range(500)], rng)
             ck.files([gen_file_case(rng) for _ in range(600)])
+            ck.files([gen_ragged_case(rng) for _ in range(600)])
+            ck.files(gen_ragged_exhaustive(rng, True))
             ck.library([gen_lib_case(rng, tables) for _ in range(200)])
     finally:
         shutil.rmtree(tool.dir, ignore_errors=True)
@@ -1163,13 +1170,14 @@ def run_inner(ctx):
              "wiring: every option spelling once with a valid and a malformed value, every method name, then "
              "random option mixes (non-trivial = the specification says Run and the --debug echo was compared); "
              "files: random token matrices through passthru (non-trivial = at least 2 rows accepted by the "
-             "independent reader); library: deterministic methods vs in-process calls (non-trivial = library "
+             "independent reader, or a ragged file from the malformed stream, which must be rejected); library: deterministic methods vs in-process calls (non-trivial = library "
              "returned an embedding). distinct by hash of the case.",
         samples=ck.samples, histogram=ck.hist, trusted_base=TRUSTED, assumptions=ASSUMPTIONS,
         extra={"traces_validated_against_impl": ck.evals, "phase_times": times,
                "translator_tables": {"options": len(tables.get("options", [])), "exits": len(tables.get("exits", [])),
                                      "wiring": len(tables.get("wiring", [])),
-                                     "numfmt": str(tables.get("numfmt")), "read_loop": tables.get("read_loop")}})
+                                     "numfmt": str(tables.get("numfmt")), "read_loop": tables.get("read_loop"),
+                                     "read_check": str(tables.get("read_check")), "mfc": str(tables.get("mfc"))}})
 
 
 def replay_case(ck, c):
